@@ -474,11 +474,12 @@ type ev struct {
 }
 
 type session struct {
-	Prog    string   `json:"program"`
-	BPLines []int    `json:"breakpoint_lines"`
-	BPFuncs []string `json:"breakpoint_funcs"`
-	Entry   bool     `json:"start_with_entry_step"`
-	Answers []int    `json:"answers"` // per stop: 0 Continue, 1 StepInto, 2 StepOver, 3 StepOut (default 0 beyond the list)
+	Prog       string   `json:"program"`
+	BPLines    []int    `json:"breakpoint_lines"`
+	BPFuncs    []string `json:"breakpoint_funcs"`
+	FuncsFirst bool     `json:"funcs_first,omitempty"` // order of the requests inside the one SetBreakpoints call
+	Entry      bool     `json:"start_with_entry_step"`
+	Answers    []int    `json:"answers"` // per stop: 0 Continue, 1 StepInto, 2 StepOver, 3 StepOut (default 0 beyond the list)
 }
 
 type outcome struct {
@@ -549,11 +550,18 @@ func debug(p program, s session) (o outcome) {
 		}
 	}, nil)
 	var reqs []interp.BreakpointRequest
+	if s.FuncsFirst {
+		for _, f := range s.BPFuncs {
+			reqs = append(reqs, interp.FunctionBreakpoint(f))
+		}
+	}
 	for _, l := range s.BPLines {
 		reqs = append(reqs, interp.LineBreakpoint(l))
 	}
-	for _, f := range s.BPFuncs {
-		reqs = append(reqs, interp.FunctionBreakpoint(f))
+	if !s.FuncsFirst {
+		for _, f := range s.BPFuncs {
+			reqs = append(reqs, interp.FunctionBreakpoint(f))
+		}
 	}
 	if len(reqs) > 0 {
 		dbg.SetBreakpoints(interp.ProgramBreakpointTarget(prog), reqs...)
@@ -797,6 +805,16 @@ func main() {
 			units = append(units, unit{pi, session{Prog: p.Name, BPFuncs: []string{f}}})
 		}
 		units = append(units, unit{pi, session{Prog: p.Name, BPFuncs: p.Funcs, Entry: true}})
+		// mixed sets in ONE SetBreakpoints call: each function breakpoint with each line breakpoint (inside or outside
+		// that function), both request orders; all functions with every line
+		for _, f := range p.Funcs {
+			for _, l := range p.Lines {
+				for _, ff := range []bool{false, true} {
+					units = append(units, unit{pi, session{Prog: p.Name, BPLines: []int{l}, BPFuncs: []string{f}, FuncsFirst: ff}})
+				}
+			}
+		}
+		units = append(units, unit{pi, session{Prog: p.Name, BPLines: p.Lines, BPFuncs: p.Funcs}}, unit{pi, session{Prog: p.Name, BPLines: p.Lines, BPFuncs: p.Funcs, FuncsFirst: true}})
 	}
 	refs := make([]outcome, len(ps))
 	for i, p := range ps {
@@ -839,7 +857,7 @@ func main() {
 	r.Set("deviation_bound", bound)
 	r.Set("programs", len(ps))
 	r.Set("exhaustive", len(res.Abnormal) == 0)
-	r.Set("rule", "corpus of 17 sequential programs (branches, loops, calls, recursion, closures, defers, recovered and uncaught panics, switch/fallthrough, methods) with one Show(line) marker per breakable line; breakpoint sets: none, every marker line, each single line (thorough: each pair), each function, all functions; start with Continue or Step(DebugEntry); resume answers Continue/StepInto/StepOver/StepOut explored by deviation-bounded DFS (default Continue, <= bound deviations); states = distinct event traces")
+	r.Set("rule", "corpus of 17 sequential programs (branches, loops, calls, recursion, closures, defers, recovered and uncaught panics, switch/fallthrough, methods) with one Show(line) marker per breakable line; breakpoint sets: none, every marker line, each single line (thorough: each pair), each function, all functions, each function x each line in one request (both orders), all functions + every line; start with Continue or Step(DebugEntry); resume answers Continue/StepInto/StepOver/StepOut explored by deviation-bounded DFS (default Continue, <= bound deviations); states = distinct event traces")
 	r.Assumptions = []string{"sequential programs only (no goroutines under the debugger)", "lines without a marker (compound statement headers) only take part in the transparency comparison", "every-line breakpoint sets are explored with one deviation less than the bound"}
 	for _, i := range []int{0, len(units) / 2, len(units) - 1} {
 		r.Sample(units[i].Base)
@@ -853,6 +871,8 @@ var numRe = regexp.MustCompile(`[0-9]+`)
 func keyOf(f fail) string {
 	kind := "no-breakpoints"
 	switch {
+	case len(f.S.BPFuncs) > 0 && len(f.S.BPLines) > 0:
+		kind = "mixed function+line"
 	case len(f.S.BPFuncs) > 0:
 		kind = "function-breakpoints"
 	case len(f.S.BPLines) == 1:
